@@ -20,6 +20,7 @@ CHARGE = 'cocls::_details::GenCallback::charge'
 
 def run(ctx, db, tier):
     retire_or_rearm(ctx, db)
+    owns_sources(ctx, db)
     startup(ctx, db)
     callback(ctx, db)
     drain(ctx, db)
@@ -58,6 +59,10 @@ def retire_or_rearm(ctx, db):
                     ce = cond_event(tr, i)
                     if ce is not None and 'generator_aggregator_controller::operator bool' in norm(ce.get('callee') or ''):
                         idx.append((i, it.val))
+            # the loop is left only through its own condition (no source is active any more): a break / return on any other
+            # condition drops the values of the sources that are still running
+            if live(tr) and idx and any(v for _, v in idx) and idx[-1][1] is not False:
+                seen_bad = seen_bad or (f, 'the main loop is left although the controller still counts active sources (exit other than through the loop condition)', tr[idx[-1][0]:])
             for a in range(len(idx) - 1):
                 if not idx[a][1]:
                     continue
@@ -73,6 +78,15 @@ def retire_or_rearm(ctx, db):
     f0 = fns[0]
     ctx.ob(rid, f0, f0['key'], seen_bad is None, 'each iteration retires or re-arms its source exactly once (%d iteration paths)' % niter + ('' if not seen_bad else ' -- ' + seen_bad[1]),
            desc=seen_bad[1] if seen_bad else None, trace=fmt_trace(seen_bad[2]) if seen_bad and seen_bad[2] else None, inst=(seen_bad[0]['inst'] if seen_bad else None))
+
+
+def owns_sources(ctx, db):
+    """the aggregator is a lazily started coroutine: whatever it needs after its first suspension must live in its frame"""
+    rid = ctx.rule('C14.owns-sources', 'TYPE', 'generator_aggregator takes the vector of source generators by value (moved into the coroutine frame): the coroutine starts lazily, a reference '
+                   'parameter would be used after the caller\'s vector may be gone or reused', floor=1)
+    for f in db.need(AGG)[:1]:
+        t = (f['params'][0]['type'] if f['params'] else '')
+        ctx.ob(rid, f, f['key'], bool(t) and 'vector' in t and not t.rstrip().endswith('&'), 'the source list parameter is %s' % t[:80], desc='generator_aggregator takes its sources by reference')
 
 
 def startup(ctx, db):
